@@ -83,7 +83,10 @@ def make_case(rng):
             hdrs.append([name, val])
         reqs.append({"path": "/r%d/app/x" % i if rng.random() < 0.5 else "/app/r%d" % i, "headers": hdrs})
     case["reqs"] = reqs
-    case["declared"] = rng.choice([["TCP4", "1.2.3.4", "5.6.7.8", 1111, 80], ["TCP6", "2001:db8::1", "::1", 2222, 443]])
+    # the client address a PROXY line declares is data, not identity: also sources that are themselves on the allow lists
+    case["declared"] = rng.choice([["TCP4", "1.2.3.4", "5.6.7.8", 1111, 80], ["TCP6", "2001:db8::1", "::1", 2222, 443],
+                                   ["TCP4", "127.0.0.1", "5.6.7.8", 3333, 80], ["TCP4", "10.9.8.7", "10.0.0.1", 4444, 8080],
+                                   ["TCP6", "::1", "::1", 5555, 443]])
     return case
 
 
@@ -224,9 +227,93 @@ def run_case(run, e2, harnesses, case):
     return v, out, app
 
 
+LIVE_ENV_APP = '''
+import json
+def app(environ, start_response):
+    body = json.dumps({k: environ.get(k) for k in ("wsgi.url_scheme", "SCRIPT_NAME", "PATH_INFO", "REMOTE_ADDR")}).encode() + b"|END"
+    start_response("200 OK", [("Content-Length", str(len(body)))])
+    return [body]
+'''
+
+
+def live_scenario(run, wc):
+    """The allow lists of a running server: after a reload that narrows them the new workers use the new lists; after a reload
+    that the server refuses (a broken configuration file) whatever serves afterwards still does not believe an unlisted peer."""
+    import os
+    import signal
+    import time
+    from vlib import e4_live as e4
+    v = []
+    settings = {"forwarded_allow_ips": "127.0.0.1", "proxy_allow_ips": "127.0.0.1", "graceful_timeout": 2, "timeout": 30}
+    if wc == "gthread":
+        settings["threads"] = 2
+    srv = e4.Server("c08", worker_class=wc, workers=2, settings=settings, app_source=e4.APP_SOURCE + LIVE_ENV_APP)
+    raw = b"GET /app/x HTTP/1.1\r\nHost: h\r\nX-Forwarded-Proto: https\r\nSCRIPT_NAME: /app\r\nConnection: close\r\n\r\n"
+
+    def ask():
+        r = e4.request(srv.addr, raw=raw, timeout=6)
+        if r["outcome"] != "ok":
+            return None
+        try:
+            return json.loads(e4.body_of(r["data"])[:-4])
+        except ValueError:
+            return None
+    try:
+        srv.start()
+        if not srv.wait_workers(2, 25) or not srv.wait_listening(5):
+            return v, "server did not boot"
+        e0 = ask()
+        if not e0 or e0["wsgi.url_scheme"] != "https":
+            return v, "the listed peer is not believed at the start: %r" % (e0,)
+        # 1. a reload narrows the lists: 127.0.0.1 is no longer on them
+        srv.write_conf(forwarded_allow_ips="10.1.1.1", proxy_allow_ips="10.1.1.1")
+        w_before = set(srv.worker_pids())
+        srv.signal(signal.SIGHUP)
+        t0 = time.monotonic()
+        while time.monotonic() - t0 < 12 and (set(srv.worker_pids()) & w_before or len(srv.worker_pids()) != 2):
+            time.sleep(0.1)
+        srv.wait_workers(2, 10)
+        e1 = ask()
+        if e1 is None:
+            return v, "no answer after the first reload"
+        run.count("live_reload_narrowing_checks")
+        if e1["wsgi.url_scheme"] != "http" or e1["SCRIPT_NAME"] != "":
+            v.append(("live/unlisted-peer-believed-after-reload", "%s: after a reload that took 127.0.0.1 off forwarded_allow_ips a request from "
+                      "it gives %r" % (wc, e1)))
+        # 2. a reload the server refuses: a value its validator rejects, above everything else in the file
+        # (the allow list itself gets a value its validator rejects; everything above it in the file - the address - is intact)
+        srv.write_conf(forwarded_allow_ips=5)
+        srv.signal(signal.SIGHUP)
+        time.sleep(2.5)
+        run.count("live_refused_reload_checks")
+        if e4.alive(srv.master_pid):
+            for _ in range(4):
+                e2_ = ask()
+                if e2_ is not None and (e2_["wsgi.url_scheme"] != "http" or e2_["SCRIPT_NAME"] != ""):
+                    v.append(("live/unlisted-peer-believed-after-refused-reload", "%s: the configuration file became invalid, the reload was "
+                              "refused, and now a request from the unlisted 127.0.0.1 gives %r" % (wc, e2_)))
+                    break
+        return v, None
+    finally:
+        srv.cleanup()
+
+
 def shard(sh):
     from vlib import e2_worker as e2
     run = Run(PROP, sh.get("tier", "quick"), sh["seed"], "exploration", RULE)
+    if sh.get("kind") == "live":
+        reason = None
+        for attempt in range(2):
+            v, reason = live_scenario(run, sh["class"])
+            if reason is None or v:
+                break
+        run.case(("live", sh["class"]))
+        run.count("live_scenarios")
+        for mech, summary in v:
+            run.violation(mech, summary, {"live": sh["class"]})
+        if reason is not None and not v:
+            run.inconclusive_because("live scenario (%s): %s" % (sh["class"], reason))
+        return run
     rng = rng_for(sh["seed"], "c08", sh["sub"])
     hs = {}
     try:
@@ -252,9 +339,13 @@ def shard(sh):
 def main(tier, seed):
     run = Run(PROP, tier, seed, "exploration", RULE)
     run.require("app_calls", "second_or_later_request_served", "proxy_connection_served", "proxy_connection_second_request",
-                "proxy_connection_refused", "untrusted_fwd_peer_served", "underscore_headers_served")
+                "proxy_connection_refused", "untrusted_fwd_peer_served", "underscore_headers_served", "live_reload_narrowing_checks",
+                "live_refused_reload_checks")
     q = tier == "quick"
     shards = [{"n": 1200 if q else 15000, "sub": i, "seed": seed, "tier": tier} for i in range(32 if q else 64)]
+    classes = ["sync", "gthread", "gevent", "eventlet"]
+    shards = [{"kind": "live", "class": c, "seed": seed, "tier": tier, "sub": 0}
+              for c in (classes if not q else [classes[seed % 4], classes[(seed + 2) % 4]])] + shards
     run.assumptions = [
         "listener is plain HTTP, process SCRIPT_NAME is empty: an untrusted peer must always see url_scheme=http, SCRIPT_NAME='' and PATH_INFO=path",
         "underscore names listed in forwarder_headers coming from a trusted peer are mapped regardless of header_map (documented) - not judged as ambiguous",
@@ -270,6 +361,14 @@ def replay(path):
     with open(path) as f:
         rec = json.load(f)
     run = Run(PROP, "quick", 0, "exploration", RULE)
+    if "live" in rec["case"]:
+        v, reason = live_scenario(run, rec["case"]["live"])
+        print("inconclusive:", reason)
+        for mech, s in v:
+            print("VIOLATION property=%s replay=%s\n  %s %s" % (PROP, path, mech, s))
+        if not v:
+            print("no violation on replay")
+        return 1 if v else 0
     hs = {}
     try:
         v, out, app = run_case(run, e2, hs, rec["case"])
